@@ -231,7 +231,12 @@ def dense_bilinear(x, o, psi):
 
 
 def close(a, b, scale):
-    return abs(a - b) <= TOL * max(scale, 1e-300)
+    a, b = complex(a), complex(b)
+    if abs(a - b) <= TOL * max(scale, 1e-300):
+        return True
+    # documented return rule of expectation / expectations: an imaginary part with |Im| <= 1e-8 ABSOLUTE may be dropped
+    # (matters for states of tiny norm, where 1e-8 is not small against the scale)
+    return abs(a.real - b.real) <= TOL * max(scale, 1e-300) and abs(b.imag) <= 1.001e-8 and a.imag == 0
 
 
 def ptrace(psi, dims, keep):
@@ -452,6 +457,27 @@ def run_case(seed, idx):
             nchecks += 1
             if np.abs(dense_state(nket) - p).max() > 1e-12 * max(1.0, np.abs(p).max()):
                 note("entropy-mutates-state")
+        # entropies do not depend on the norm: a copy scaled to |psi|^2 ~ 1e8..1e10 (or ~1e-8) must give the same values
+        # (calc_vn_entropy once tested the sign of the spectrum with an absolute tolerance before normalising it)
+        if rng.random() < 0.5:
+            nrm_ = float(np.linalg.norm(p))
+            fac = rng.choice([3e4, 1e5, 1e-4]) / max(nrm_, 1e-300)
+            sk = ket.copy().scale(fac)
+            label = "large" if fac * nrm_ > 1 else "small"
+            try:
+                f1 = sk.calc_entropy("1site")
+                f2 = sk.calc_entropy("2site") if len(dims) > 1 else {}
+                for i in range(len(dims)):
+                    nchecks += 1
+                    if abs(f1[i] - s1[i]) > 1e-8 * max(1.0, abs(s1[i])):
+                        note("entropy-1site-scaled", scale=label, site=i, impl=float(f1[i]), dense=s1[i])
+                for key_, ref_ in s2.items():
+                    nchecks += 1
+                    if abs(f2[key_] - ref_) > 1e-8 * max(1.0, abs(ref_)):
+                        note("entropy-2site-scaled", scale=label, pair=list(key_), impl=float(f2[key_]), dense=ref_)
+            except Exception as e:
+                import traceback
+                note("entropy-raised-on-scaled-state", scale=label, norm2=(fac * nrm_) ** 2, error=repr(e), tb=traceback.format_exc()[-500:])
     except Exception as e:
         import traceback
         note("entropy-raised", error=repr(e), tb=traceback.format_exc()[-800:])
@@ -756,14 +782,125 @@ def run_shared_list_case(seed, idx):
     return info, fails, nchecks
 
 
+# ------------------------------------------------------------------- MpDm.from_mps of genuinely complex states
+# d = MpDm.from_mps(psi) copies every physical index onto the ancilla: its dense matrix is rho_d = diag(psi) (a
+# purification whose physical state is the dephased diag(|psi(s)|^2)).  Every observable of d is compared with the
+# general density-operator formula evaluated on that dense rho_d (built from the hand-contracted psi, not from d), and,
+# for DIAGONAL observables (occupations, diagonal of the RDMs), with the same observable of the Mps itself.
+def run_frommps_case(seed, idx):
+    rng = random.Random("c07-fm-%d-%d" % (seed, idx))
+    nprng = np.random.default_rng([seed, idx, 17])
+    fails = []
+    model, kind = make_model(rng)
+    qn = legal_qn(model, kind, rng)
+    flavour = rng.choice(["phases", "random-complex", "evolved"])
+    psi_mps, gauge = rand_mps(rng, nprng, model, kind, qn, flavour == "random-complex")
+    if flavour == "phases":
+        psi_mps = psi_mps.to_complex()
+        for i in range(len(psi_mps)):
+            a = np.asarray(psi_mps[i].array)
+            psi_mps[i] = a * np.exp(1j * nprng.uniform(0, 2 * np.pi, size=a.shape))
+    elif flavour == "evolved":
+        # exp(-i t sum_k c_k n_k): a diagonal propagator applied site by site (exact, keeps the bond structure)
+        psi_mps = psi_mps.to_complex()
+        t = rng.uniform(0.3, 2.0)
+        for i in range(len(psi_mps)):
+            a = np.asarray(psi_mps[i].array)
+            ph = np.exp(-1j * t * (0.7 + i) * np.arange(a.shape[1]))
+            psi_mps[i] = a * ph[None, :, None]
+    if rng.random() < 0.3:
+        psi_mps.coeff = psi_mps.coeff * (0.6 + 0.3j)
+    info = {"kind": "from_mps", "model": kind, "n": model.nsite, "flavour": flavour, "gauge": gauge}
+    nchecks = 0
+    try:
+        d = MpDm.from_mps(psi_mps)
+    except Exception as e:
+        fails.append({"check": "from_mps-raised", "error": repr(e)})
+        return info, fails, 1
+    psi = _hand_dense(psi_mps)
+    dims = [int(x) for x in psi_mps.pbond_list]
+    nrm2 = float(np.linalg.norm(psi) ** 2)
+    info["imag_weight"] = float(np.linalg.norm(psi.imag) / max(np.linalg.norm(psi), 1e-300))
+
+    def bad(name, **kw):
+        kw["check"] = "from_mps-" + name
+        fails.append(kw)
+    # the dense matrix is the diagonal embedding of psi
+    rho = dense_state(d)
+    rho_ref = np.diag(psi)
+    nchecks += 1
+    if np.abs(rho - np.diag(psi)).max() > TOL * max(np.abs(psi).max(), 1e-300):
+        bad("todense", err=float(np.abs(rho - np.diag(psi)).max()), dtype=str(np.asarray(d[0].array).dtype))
+    nchecks += 1
+    if abs(d.norm - psi_mps.norm) > TOL * max(psi_mps.norm, 1e-300):
+        bad("norm", mpdm=float(d.norm), mps=float(psi_mps.norm))
+    style, ops = op_list(rng, model, rng.random() < 0.4)
+    try:
+        mpos = [Mpo(model, o) for o in ops][:6]
+    except Exception:
+        mpos = []
+    try:
+        if mpos:
+            vd = np.asarray(d.expectations(mpos))
+            vm = np.asarray(psi_mps.expectations(mpos))
+            for k, m in enumerate(mpos):
+                o = np.asarray(m.todense())
+                ref_d = dense_bilinear(rho_ref.conj(), o, rho_ref)
+                ref_m = psi.conj() @ (o @ psi)
+                sc = nrm2 * max(np.linalg.norm(o, 2), 1e-300)
+                for name, v, ref in (("expectations", vd[k], ref_d), ("expectation", d.expectation(m), ref_d), ("mps-expectations", vm[k], ref_m)):
+                    nchecks += 1
+                    if not close(v, ref, sc):
+                        bad(name, op_index=k, impl=repr(complex(v)), dense=repr(complex(ref)), scale=float(sc))
+        if model.n_edofs > 0:
+            oc, om = np.asarray(d.e_occupations), np.asarray(psi_mps.e_occupations)
+            for j, dof in enumerate(model.e_dofs):
+                o = np.asarray(Mpo(model, Op(r"a^\dagger a", dof)).todense())
+                ref = psi.conj() @ (o @ psi)
+                nchecks += 1
+                if not close(oc[j], ref, nrm2) or not close(om[j], ref, nrm2):
+                    bad("e_occupations", dof=repr(dof), mpdm=repr(complex(oc[j])), mps=repr(complex(om[j])), dense=repr(complex(ref)))
+        if len(model.v_dofs) > 0:
+            oc, om = np.asarray(d.ph_occupations), np.asarray(psi_mps.ph_occupations)
+            for j, dof in enumerate(model.v_dofs):
+                o = np.asarray(Mpo(model, Op(r"b^\dagger b", dof)).todense())
+                ref = psi.conj() @ (o @ psi)
+                nchecks += 1
+                if not close(oc[j], ref, nrm2 * max(dims)) or not close(om[j], ref, nrm2 * max(dims)):
+                    bad("ph_occupations", dof=repr(dof), mpdm=repr(complex(oc[j])), mps=repr(complex(om[j])), dense=repr(complex(ref)))
+        r1d, r1m = d.calc_1site_rdm(), psi_mps.calc_1site_rdm()
+        for i in range(len(dims)):
+            ref = ptrace(rho_ref, dims, [i])
+            ref_m = ptrace(psi, dims, [i])
+            nchecks += 1
+            if np.abs(r1d[i] - ref).max() > TOL * nrm2 or np.abs(r1m[i] - ref_m).max() > TOL * nrm2 \
+                    or np.abs(np.diag(r1d[i]) - np.diag(r1m[i])).max() > TOL * nrm2:
+                bad("calc_1site_rdm", site=i, err_mpdm=float(np.abs(r1d[i] - ref).max()), err_mps=float(np.abs(r1m[i] - ref_m).max()),
+                    diag_mpdm_vs_mps=float(np.abs(np.diag(r1d[i]) - np.diag(r1m[i])).max()))
+        if len(dims) > 1:
+            r2d = d.calc_2site_rdm()
+            for i in range(len(dims)):
+                for j in range(i + 1, len(dims)):
+                    ref = ptrace(rho_ref, dims, [i, j])
+                    nchecks += 1
+                    if np.abs(r2d[(i, j)] - ref).max() > TOL * nrm2:
+                        bad("calc_2site_rdm", pair=[i, j], err=float(np.abs(r2d[(i, j)] - ref).max()))
+    except Exception as e:
+        import traceback
+        bad("raised", error=repr(e), tb=traceback.format_exc()[-600:])
+    return info, fails, nchecks
+
+
 def replay(seed, idx):
     info, fails, n = run_case(seed, idx)
     info2, fails2, n2 = run_smallimag_case(seed, idx)
     info3, fails3, n3 = run_shared_list_case(seed, idx)
+    info4, fails4, n4 = run_frommps_case(seed, idx)
     print(json.dumps(info))
     print(json.dumps(info2))
     print(json.dumps(info3))
-    fails = fails + fails2 + fails3
+    print(json.dumps(info4))
+    fails = fails + fails2 + fails3 + fails4
     for f in fails[:5]:
         print("FAIL", json.dumps(f, default=str))
     return 1 if fails else 0
@@ -785,7 +922,12 @@ def main():
             n += n3
             for k_ in info3.get("sequence", [])[1:]:
                 out["hist"]["sl=%s" % k_] = out["hist"].get("sl=%s" % k_, 0) + 1
-            fails = fails + fails2 + fails3
+            info4, fails4, n4 = run_frommps_case(seed, idx)
+            for f in fails4:
+                f["info"] = info4
+            n += n4
+            out["hist"]["fm=%s" % info4["flavour"]] = out["hist"].get("fm=%s" % info4["flavour"], 0) + 1
+            fails = fails + fails2 + fails3 + fails4
             n += n2
             out["hist"]["si=%s" % info2["variant"]] = out["hist"].get("si=%s" % info2["variant"], 0) + 1
             r_ = info2.get("im_over_re")
